@@ -210,7 +210,7 @@ def likely_cached_before(ops, idx):
 def fault_kinds_for(kd, parallel=True):
     kinds = []
     if kd["scheme"] == "sim":
-        kinds += ["NOTFOUND", "ERR_BEFORE", "ERR_MID", "ERR_AFTER", "RET_FALSE_BEFORE", "RET_FALSE_MID"]
+        kinds += ["NOTFOUND", "ERR_BEFORE", "ERR_MID", "ERR_AFTER", "RET_FALSE_BEFORE", "RET_FALSE_MID", "ERR_STOPITER"]
         if not parallel:
             # Ctrl-C reaches the main thread only: meaningful when the download runs there
             kinds += ["INTERRUPT_MID"]
@@ -240,6 +240,15 @@ def gen_faults(rng, knobs, ops):
         ov = op.get("val") or []
         hit_val = [k for pos, k in enumerate(op["keys"]) if k in cached and
                    (ov[pos] if pos < len(ov) and ov[pos] is not None else keys[k]["val"])]
+        if len(set(hit_val)) >= 2 and rng.random() < 0.35:
+            # one entry is rejected, then the validator of a later entry of the same request crashes; afterwards
+            # the first uri is requested without the validate directive
+            a = hit_val[0]
+            b = [k for k in hit_val if k != a][-1]
+            faults.append({"op": op["id"], "kind": "VALIDATE_FALSE", "key": a})
+            faults.append({"op": op["id"], "kind": "VALIDATE_RAISE", "key": b})
+            extra_ops.append((gi, {"op": "GET", "keys": [a], "val": [False], "dt": 1000}))
+            continue
         if hit_val and rng.random() < 0.5:
             k = rng.choice(hit_val)
             faults.append({"op": op["id"], "kind": rng.choice(["VALIDATE_FALSE", "VALIDATE_IOERROR"]), "key": k})
